@@ -69,6 +69,8 @@ def own_test(node):
 
 
 def check(prog, rep):
+    from . import pitfalls as _pit
+    rep.section(_pit.report, prog, rep, 'R06.P', ['src/optyx/solvers/scipy_solver.py'], ('P2',))
     bcs = backend_calls(prog)
     mins = [(fi, c) for fi, c, w in bcs if w.endswith(".minimize")]
     lps = [(fi, c) for fi, c, w in bcs if w.endswith(".linprog")]
